@@ -1269,6 +1269,12 @@ class Interp:
         return Box(UNINIT)
 
     def e_CXXDeleteExpr(self, n, env):
+        # destructors are not run; the freed object is recorded so that ownership rules can ask what was released
+        try:
+            v = self.ev(n["ch"][0], env) if n.get("ch") else None
+        except Unsupported:
+            v = None
+        self.__dict__.setdefault("deleted", []).append(v)
         return None
 
     def call_closure(self, c, arg_values):
